@@ -78,6 +78,19 @@ def confirm(d):
         dest, rundir, cmd = o.get("dest", dest), o.get("rundir", rundir), o.get("cmd", cmd)
         if o.get("src"):
             src = os.path.join(d, o["src"])
+    if not (src and dest and rundir and cmd) or "<repo>" in (dest or "") + (rundir or ""):
+        # auto-plan: destination from the text, test name from the demo file
+        loc = json.dumps(meta.get("demo_location", ""))
+        m = re.search(r"(?:<repo>/)?((?:x/go|alamos/go|arc/go|freighter/go|freighter/integration|aspen|cesium|core)/[A-Za-z0-9_./-]*_test\.go)", loc)
+        names = re.findall(r"^func (Test[A-Za-z0-9_]+)\(", open(src).read(), re.M) if src else []
+        if m and names and "ginkgo" not in open(src).read():
+            dest = m.group(1)
+            for mod in ("x/go", "alamos/go", "arc/go", "freighter/go", "freighter/integration", "aspen", "cesium", "core"):
+                if dest.startswith(mod + "/"):
+                    rundir = mod
+                    rel = os.path.dirname(dest[len(mod) + 1:])
+                    cmd = "go test -mod=mod -vet=off -count=1 -run '^(%s)$' ./%s" % ("|".join(names), rel + "/" if rel else "")
+                    break
     if not (src and dest and rundir and cmd):
         print("cannot derive demo plan; write %s with dest/rundir/cmd" % over)
         print(json.dumps(meta.get("demo_location")))
